@@ -212,13 +212,13 @@ def _spell(path, how):
     return path
 
 
-def run_once(sc, fault=None, body_raise=None, spoil=None, noop_on=None, hooks=None):
+def run_once(sc, fault=None, body_raise=None, spoil=None, noop_on=None, hooks=None, faults=None):
     """Execute one mutate run.  body_raise = (position, exc name); spoil =
     {"what": "unserializable-int" | ...} appended to the edit script."""
     lib = ops.lib()
     cfg = sc["config"]
     disk_cfg = {"short_reads": cfg.get("short_reads"), "short_writes": cfg.get("short_writes")}
-    disk = make_disk(sc["world"], disk_cfg, [fault] if fault else None, cfg["facade"])
+    disk = make_disk(sc["world"], disk_cfg, faults or ([fault] if fault else None), cfg["facade"])
     o = Outcome()
     o.disk = disk
     o.before = disk.snapshot()
@@ -821,8 +821,36 @@ def check_c06(sc, res):
         res.note("fault", shape, fault["kind"], fault.get("errno"), k)
         res.log("fault", label, o.disk.log_digest(), repr(type(o.escaped)))
 
+    # ---- 4. fault sequences: a second fault in the calls right after the first
+    # (the clean-up path: the close that follows a failed write, the next open)
+    def sub_faults(fl):
+        k1 = fl[0]["k"]
+        if k1 > K:
+            return
+        o = run_once(sc, faults=fl, hooks=hooks)
+        res.evaluations += 1
+        label = "+".join("%s@%d" % (f["kind"], f["k"]) for f in fl)
+        if o.invariant is not None:
+            res.violate(P, o.invariant.clause, sub=label, faults=fl)
+            return
+        if len(o.disk.fired) < 2:
+            res.stats["fault-sequence-second-not-reached"] += 1
+            return
+        res.stats["fault:sequence:%s" % "+".join(f["kind"] for f in fl)] += 1
+        extra = {"faults": fl}
+        if k1 <= base.events_at_entry and _changed_paths(o.before, o.after):
+            res.violate(P, "load-phase-fault-changed-disk", **extra)
+            return
+        if not generic_after(o, label, extra):
+            return
+        res.note("faults", shape, label)
+        res.log("faults", label, o.disk.log_digest(), repr(type(o.escaped)))
+
     if only is not None:
         kind_ = only["sub"]
+        if kind_ == "faults":
+            sub_faults(only["faults"])
+            return
         if kind_ == "fault-free":
             hb = run_once(sc, hooks=hooks)
             res.evaluations += 1
@@ -866,6 +894,15 @@ def check_c06(sc, res):
         for f in faults:
             sub_fault(f)
             tag({"sub": "fault", "fault": f})
+    # sequences: err@k followed by err / kill at one of the next two calls, for every k of the
+    # save phase (plus the last calls of the load phase)
+    for k in range(max(1, base.events_at_entry - 1), K + 1):
+        for d in (1, 2):
+            for second in ("err", "kill"):
+                fl = [{"kind": "err", "k": k, "errno": "EIO"},
+                      {"kind": second, "k": k + d, "errno": "ENOSPC"}]
+                sub_faults(fl)
+                tag({"sub": "faults", "faults": fl})
 
 
 def execute(sc):
